@@ -541,6 +541,41 @@ pub fn run(args: &Args) -> i32 {
         rep.cap_hit = Some("round-start graph: more than 1500 distinct round starts from one initial sequence".into());
     }
 
+    // ---- Part G: the Dublin/IPv6 regime with TCP (accepted by Builder::build): rounds of up to 512
+    // numbers (re-issue bursts) against a numbering that restarts 512 after the initial sequence
+    {
+        let target: IpAddr = IpAddr::V6("fd00::a09:909".parse().unwrap());
+        let accepted = trippy_core::Builder::new(target)
+            .protocol(Protocol::Tcp)
+            .multipath_strategy(MultipathStrategy::Dublin)
+            .port_direction(PortDirection::new_fixed_src(5000))
+            .build()
+            .is_ok();
+        rep.set("builder_accepts_tcp_dublin_ipv6", json!(accepted));
+        if accepted {
+            let mut local = Findings::new();
+            let (mut rounds, mut execs, mut sends) = (0u64, 0u64, 0u64);
+            for init in [33434u16, 0] {
+                for sizes in [vec![300usize, 300, 300, 3], vec![1, 511, 512, 2], vec![256, 257, 258, 2], vec![512, 512, 1]] {
+                    let mut cfg = tcp_cfg(init, &sizes, vec![]);
+                    cfg.strategy.multipath_strategy = MultipathStrategy::Dublin;
+                    cfg.strategy.target_addr = target;
+                    let ctx = json!({"check":"C07","part":"G","regime":"dublin-ipv6","protocol":"tcp","initial_sequence":init,"round_sizes":sizes});
+                    let o = strat::run_strategy(cfg, Chooser::new(&[], 0));
+                    execs += 1;
+                    sends += monitor(&o, init, sizes.len(), &ctx, &mut local);
+                    rounds += o.world.publishes.len() as u64;
+                }
+            }
+            let mut t = totals.lock().unwrap();
+            t.1 += rounds;
+            t.2 += execs;
+            t.3 += sends;
+            drop(t);
+            merge(&findings, local);
+        }
+    }
+
     // ---- Part E: Dublin/IPv6 at wire level: payload length = sequence - initial + 6 and fits --
     let mut wire_checked = 0u64;
     {
